@@ -41,11 +41,15 @@ def chunks(tier, seed):
     for k in range(4):
         out.append({"kind": "add", "shard": k, "of": 4, "key": "add%d" % k,
                     "n": 6000 if tier == "quick" else 150000})
+    for k in range(4):
+        out.append({"kind": "frac", "shard": k, "of": 4, "key": "frac%d" % k,
+                    "n": 5000 if tier == "quick" else 100000})
     return out
 
 
 def floors(tier):
-    return {"monitors": {"readUnixTime.wellformed": 100000, "inplace_fields.then_convert": 3000},
+    return {"monitors": {"readUnixTime.wellformed": 100000, "inplace_fields.then_convert": 3000,
+                         "fractional.wellformed_same_instant": 3000},
             "classes": {"jan1_after_common_year": 90, "dec31_leap_year": 30, "leap_day": 30,
                         "cmp_pair": 1000, "add_cross_year": 50, "add_cross_leapday": 20},
             "distinct_nontrivial": 1000}
@@ -117,6 +121,17 @@ def cases(chunk):
                 if idx % chunk["of"] == chunk["shard"]:
                     yield {"kind": "pairs", "ym": [y, m]}
                 idx += 1
+    elif kind == "frac":
+        # seconds values that are NOT whole milliseconds (as arithmetic on epoch seconds produces them), at the end of
+        # a minute / hour / day / month / year, with sub-millisecond fractions just below the next second
+        sd = special_days()
+        for i in range(chunk["n"]):
+            y, m, d = rng.choice(sd) if rng.random() < 0.5 else (rng.randrange(1970, 2100), rng.randrange(1, 13), rng.randrange(1, 29))
+            sec_of_day = rng.choice([86399, 59, 3599, 0, 43199, rng.randrange(86400), 60 * rng.randrange(1440) + 59])
+            frac = rng.choice([0.9995, 0.9996, 0.99951, 0.99999, 0.999999, 0.9994, 0.0004, 0.0005, 0.5, 0.25,
+                               rng.random(), 1.0 - 10.0 ** rng.uniform(-7, -3.2)])
+            yield {"kind": "frac", "whole_s": gen.ms_from_fields(y, m, d) // 1000 + sec_of_day, "frac": frac,
+                   "via": rng.choice(["read", "read", "addSec"])}
     elif kind == "add":
         sd = special_days()
         for i in range(chunk["n"]):
@@ -249,6 +264,32 @@ def run_case(case, ctx):
                                              "got": got, "expected": exp}, ("pairs", y, m), True, ["cmp_pair"])
         ctx.monitor("compare.vs_epoch_order", n)
         return held(("pairs", y, m), True, ["cmp_pair"])
+    if kind == "frac":
+        whole, frac, via = case["whole_s"], case["frac"], case["via"]
+        s_in = whole + frac
+        if via == "read":
+            r = M.call(ObsTime.readUnixTime, s_in)
+        else:
+            r = M.call(gen.obstime_from_ms(whole * 1000).addSec, frac)
+        cls = ["fractional_seconds", "via_" + via]
+        if frac >= 0.9995:
+            cls.append("fraction_rounds_to_next_second")
+        if whole % 60 == 59:
+            cls.append("second_59")
+        sig = ("frac", whole, frac, via)
+        ctx.monitor("fractional.wellformed_same_instant")
+        if M.is_raised(r):
+            return violated({"what": "conversion of a seconds value with a sub-millisecond part raised",
+                             "seconds": s_in, "via": via, "raised": r}, sig, True, cls)
+        rf = gen.obstime_fields(r)
+        if not wellformed_fields(*rf):
+            return violated({"what": "conversion of a seconds value with a sub-millisecond part returned a malformed "
+                                     "date", "seconds": s_in, "via": via, "got_fields": rf}, sig, True, cls)
+        back = gen.ms_from_fields(*[int(v) for v in rf])
+        if abs(back - s_in * 1000.0) > 1.0 + 1e-3:
+            return violated({"what": "conversion moved the instant by more than 1 ms", "seconds": s_in, "via": via,
+                             "got_fields": rf, "delta_ms": back - s_in * 1000.0}, sig, True, cls)
+        return held(sig, True, cls)
     if kind == "add":
         base = case["base_ms"]
         unit, n = case["unit"], case["n"]
